@@ -40,6 +40,8 @@ use crate::jsonmodel::{Model, Tokens, L0, L1};
 use crate::transport::{parse_write_script, ReadScript, Scripted};
 
 pub static LAST_PANIC: Mutex<Option<(String, String, u32)>> = Mutex::new(None);
+/// every panic seen by the hook: (thread name, message, "file|function")
+pub static PANICS: Mutex<Vec<(String, String, String)>> = Mutex::new(Vec::new());
 /// transport record of the serve case in flight, so that a panicking case still reports what was written
 pub static LAST_SERVE: Mutex<Option<std::sync::Arc<Mutex<crate::transport::Record>>>> = Mutex::new(None);
 
@@ -70,6 +72,8 @@ pub fn install_panic_hook() {
                 }
             }
         }
+        let thread = std::thread::current().name().unwrap_or("?").to_string();
+        PANICS.lock().unwrap_or_else(|e| e.into_inner()).push((thread, msg.clone(), format!("{}|{}", file, func)));
         *LAST_PANIC.lock().unwrap_or_else(|e| e.into_inner()) = Some((msg, format!("{}|{}", file, func), line));
     }));
 }
